@@ -181,7 +181,7 @@ def prim_case(ctx, arr: np.ndarray, items: list, fails: list, kind: str) -> None
                 fails.append((arr.size, 'blur-not-ring-dilation', {**desc, 'size': s},
                               f'blur_mask({sh} {b}, size={s}) = {show_arr(got)}, the {s}-ring dilation is {show_arr(exp)}'))
         except Exception as e:
-            outs.append(f'ERR:{type(e).__name__}')
+            outs.append('ERR')
     items.append((f'blurall {sh} {b} 3', '|'.join(outs), {**desc, 'op': f'blurall {sh} {b} 3'}))
     outs = []
     for py, px in [(False, False), (False, True), (True, False), (True, True)]:
@@ -193,7 +193,7 @@ def prim_case(ctx, arr: np.ndarray, items: list, fails: list, kind: str) -> None
                 fails.append((arr.size, 'smear-not-incident-faces', {**desc, 'pad_axes': [py, px]},
                               f'smear_mask({sh} {b}, {[py, px]}) = {show_arr(got)}, expected {show_arr(exp)}'))
         except Exception as e:
-            outs.append(f'ERR:{type(e).__name__}')
+            outs.append('ERR')
     items.append((f'smearall {sh} {b}', '|'.join(outs), {**desc, 'op': f'smearall {sh} {b}'}))
     ctx.count(f'prim:{kind}')
     if 0 < int(arr.sum()) < arr.size:
@@ -305,8 +305,8 @@ class Case:
         against the generator's face-node lists before it is given to the model"""
         topo = self.c.topology
         try:
-            fe = [[int(v) for v in row.compressed()] for row in topo.face_edge_array]
-            en = [tuple(int(v) for v in row.compressed()) for row in topo.edge_node_array]
+            fe = [[int(v) for v in np.ma.asarray(row).compressed()] for row in np.ma.asarray(topo.face_edge_array)]
+            en = [tuple(int(v) for v in np.ma.asarray(row).compressed()) for row in np.ma.asarray(topo.edge_node_array)]
             ne = int(topo.edge_count)
         except Exception as e:
             self.edge_problem = f'{type(e).__name__}: {e}'
@@ -575,25 +575,32 @@ def mesh_function_cases(ctx, case: Case, items: list, fails: list) -> None:
 # ----------------------------------------------------------------------------
 # shrinking of a failing mesh case (fewer faces, plain encoding)
 
-def shrink_ugrid(desc: dict, signature: str) -> dict:
+def shrink_ugrid(desc: dict, signature: str):
+    """greedy: plain encoding, then drop faces one at a time, then unused nodes, as long as the
+    same oracle signature still fires; returns (smaller description, its oracle message)"""
+    import random
     recipe = dict(desc['recipe'])
     geom = CG.from_hex(desc['geom'])
     buffer = desc['buffer']
+    last = {}
 
     def still_fails(r) -> bool:
         try:
             case = Case(r)
             fl: list = []
-            import random
-            dummy = _Dummy(random.Random(0))
-            clip_case(dummy, case, geom, desc.get('class', 'shrunk'), buffer, [], fl, [], None)
-            return any(sig == signature for _, sig, _, _ in fl)
+            clip_case(_Dummy(random.Random(0)), case, geom, desc.get('class', 'shrunk'), buffer, [], fl, [], None)
+            for _, sig, d, m in fl:
+                if sig == signature:
+                    last['msg'] = m
+                    last['recipe'] = r
+                    return True
+            return False
         except Exception:
             return False
 
     plain = dict(recipe)
     plain['enc'] = {'start_index': 0, 'fill': 'nan', 'transposed': False, 'tables': [], 'edge_dim_declared': False}
-    if still_fails(plain):
+    if not signature.endswith('edges') and still_fails(plain):
         recipe = plain
     faces = list(recipe['faces'])
     k = 0
@@ -607,7 +614,6 @@ def shrink_ugrid(desc: dict, signature: str) -> dict:
             recipe = r
         else:
             k += 1
-    # drop unused nodes
     used = sorted({n for f in faces for n in f})
     remap = {n: k for k, n in enumerate(used)}
     r = dict(recipe)
@@ -615,10 +621,12 @@ def shrink_ugrid(desc: dict, signature: str) -> dict:
     r['faces'] = [[remap[n] for n in f] for f in faces]
     if still_fails(r):
         recipe = r
+    if not still_fails(recipe):
+        return desc, None
     out = dict(desc)
     out['recipe'] = recipe
     out.pop('op', None)
-    return out
+    return out, last['msg'] + f' [shrunk from {len(desc["recipe"]["faces"])} faces]'
 
 
 class _Dummy:
@@ -650,9 +658,9 @@ def run(ctx) -> None:
         if sig.startswith('ugrid-') and sig not in shrunk and 'geom' in desc:
             shrunk.add(sig)
             try:
-                small = shrink_ugrid(desc, sig)
-                msg = msg + f' [shrunk to {len(small["recipe"]["faces"])} faces from {len(desc["recipe"]["faces"])}]'
-                desc = small
+                small, small_msg = shrink_ugrid(desc, sig)
+                if small_msg:
+                    desc, msg = small, small_msg
             except Exception:
                 pass
         ctx.oracle_fail(sig, desc, msg)
